@@ -171,23 +171,19 @@ func doBytes(c *vlib.Ctx, b []byte, origin string, verbose bool) {
 		fmt.Printf("bytes %x: %s\n", b, describe(o))
 	}
 	// Coq case
-	nodeT, reencT := "(Err 0)", vlib.CoqBytes(nil)
 	if o.genG.panicked != "" || o.adG.panicked != "" || o.chG.panicked != "" {
 		return // a panic is reported above; the model has no such outcome
 	}
+	reencT := "(@None bytes)"
 	if o.genG.ok() {
-		t, hasFloat := coqNode(o.gen)
-		nodeT = "(Ok " + t + ")"
-		if hasFloat || !o.reencG.ok() {
-			reencT = "(encode " + t + ")" // float values are not modelled: nothing to compare
-		} else {
-			reencT = vlib.CoqBytes(o.reenc)
+		if o.reencG.ok() && !bytes.Equal(o.reenc, b) {
+			reencT = "(Some " + vlib.CoqBytes(o.reenc) + ")"
 		}
 		c.Count("dec:generic-ok")
 	} else {
 		c.Count("dec:generic-err")
 	}
-	adT, chT := "(Err 0)", "(Err 0)"
+	adT, chT := "(@Err ad 0)", "(@Err chunk 0)"
 	if o.adG.ok() {
 		adT = "(Ok " + o.ad.coq() + ")"
 		c.Count("dec:ad-ok")
@@ -196,11 +192,31 @@ func doBytes(c *vlib.Ctx, b []byte, origin string, verbose bool) {
 		chT = "(Ok " + o.ch.coq() + ")"
 		c.Count("dec:chunk-ok")
 	}
-	c.Case("dec", fmt.Sprintf("(%s, %s, %s, %s, %s)", vlib.CoqBytes(b), nodeT, reencT, adT, chT), rp)
+	if emitDec(c, origin) {
+		c.Case("dec", fmt.Sprintf("(%s, %s, %s, %s, %s)", vlib.CoqBytes(b), vlib.CoqBool(o.genG.ok()), reencT, adT, chT), rp)
+	}
 	if origin != "random" {
 		c.Nontrivial("dec:" + hx(b))
 	}
-	sample(c, "dec", origin == "mutation" && o.adG.ok(), hx(b), describe(o))
+	sample(c, "dec", strings.HasPrefix(origin, "mutation") && o.adG.ok(), hx(b), describe(o))
+}
+
+// emitDec: every input goes through the real decoders and the direct oracles; the quick
+// tier evaluates the Coq model on a fixed fraction of the bulky streams
+var decSeq = map[string]int{}
+
+func emitDec(c *vlib.Ctx, origin string) bool {
+	decSeq[origin]++
+	if c.Thorough() || c.Replay != "" {
+		return true
+	}
+	switch origin {
+	case "bitflip":
+		return decSeq[origin]%5 == 0
+	case "mutation-light":
+		return decSeq[origin]%6 == 0
+	}
+	return true
 }
 
 func describe(o decObs) string {
@@ -318,26 +334,27 @@ func cat(parts ...[]byte) []byte {
 var rFalse, rTrue, rNull = []byte{0xf4}, []byte{0xf5}, []byte{0xf6}
 
 func baseAdEntries(withPrev, withExt bool) []kv {
-	ent := mkCid("entries", 0x0129, multihash.SHA2_256)
+	// identity-hash CIDs keep the blocks (and the Coq literals) small
+	ent := mkCid("en", 0x55, multihash.IDENTITY)
 	es := []kv{}
 	if withPrev {
-		es = append(es, kv{"PreviousID", rLink(mkCid("prev", 0x0129, multihash.SHA2_256))})
+		es = append(es, kv{"PreviousID", rLink(mkCid("pr", 0x0129, multihash.IDENTITY))})
 	}
-	es = append(es, kv{"Provider", rText("12D3KooWProv")}, kv{"Addresses", rList(rText("/ip4/1.2.3.4/tcp/1"), rText("/dns/x/tcp/2"))},
+	es = append(es, kv{"Provider", rText("12D3")}, kv{"Addresses", rList(rText("/ip4/1.2.3.4"), rText("/x"))},
 		kv{"Signature", rBytes([]byte{1, 2, 3})}, kv{"Entries", rLink(ent)}, kv{"ContextID", rBytes([]byte("ctx"))}, kv{"Metadata", rBytes([]byte{0x80, 0x12})}, kv{"IsRm", rFalse})
 	if withExt {
-		prov := rMap([]kv{{"ID", rText("12D3KooWExt")}, {"Addresses", rList(rText("/ip4/5.6.7.8/tcp/9"))}, {"Metadata", rBytes([]byte{9})}, {"Signature", rBytes([]byte{8, 8})}})
+		prov := rMap([]kv{{"ID", rText("Ext")}, {"Addresses", rList(rText("/y"))}, {"Metadata", rBytes([]byte{9})}, {"Signature", rBytes([]byte{8, 8})}})
 		es = append(es, kv{"ExtendedProvider", rMap([]kv{{"Providers", rList(prov)}, {"Override", rTrue}})})
 	}
 	return es
 }
 
 func baseChunkEntries(withNext bool) []kv {
-	mh1, _ := multihash.Sum([]byte("a"), multihash.SHA2_256, -1)
-	mh2, _ := multihash.Sum([]byte("b"), multihash.SHA1, -1)
+	mh1, _ := multihash.Sum([]byte("a"), multihash.IDENTITY, -1)
+	mh2, _ := multihash.Sum([]byte("b"), multihash.MD5, -1)
 	es := []kv{{"Entries", rList(rBytes(mh1), rBytes(mh2))}}
 	if withNext {
-		es = append(es, kv{"Next", rLink(mkCid("next", 0x0129, multihash.SHA2_256))})
+		es = append(es, kv{"Next", rLink(mkCid("nx", 0x0129, multihash.IDENTITY))})
 	}
 	return es
 }
@@ -373,8 +390,8 @@ func mustSum(s string) multihash.Multihash {
 	return m
 }
 
-func mutateStruct(c *vlib.Ctx, base []kv, fieldsOfInterest []string) {
-	emit := func(es []kv) { doBytes(c, rMap(es), "mutation", false) }
+func mutateStruct(c *vlib.Ctx, base []kv, origin string) {
+	emit := func(es []kv) { doBytes(c, rMap(es), origin, false) }
 	cp := func() []kv { return append([]kv{}, base...) }
 	emit(base)
 	// reversed and rotated order (accepted: field order is free)
@@ -412,16 +429,16 @@ func mutateStruct(c *vlib.Ctx, base []kv, fieldsOfInterest []string) {
 	// declared length off by one, indefinite-length struct map, non-minimal map head, tagged map
 	body := rMap(base)[1:]
 	n := uint64(len(base))
-	doBytes(c, cat(head(5, n+1, 0), body), "mutation", false)
-	doBytes(c, cat(head(5, n-1, 0), body), "mutation", false)
-	doBytes(c, cat([]byte{0xbf}, body, []byte{0xff}), "mutation", false)
-	doBytes(c, cat([]byte{0xbf}, body), "mutation", false)
-	doBytes(c, cat(head(5, n, 2), body), "mutation", false)
-	doBytes(c, cat(head(5, n, 8), body), "mutation", false)
-	doBytes(c, cat([]byte{0xc6}, rMap(base)), "mutation", false)
-	doBytes(c, cat(rMap(base), []byte{0}), "mutation", false)
-	doBytes(c, cat(rMap(base), rMap(base)), "mutation", false)
-	doBytes(c, rList(rMap(base)), "mutation", false)
+	doBytes(c, cat(head(5, n+1, 0), body), origin, false)
+	doBytes(c, cat(head(5, n-1, 0), body), origin, false)
+	doBytes(c, cat([]byte{0xbf}, body, []byte{0xff}), origin, false)
+	doBytes(c, cat([]byte{0xbf}, body), origin, false)
+	doBytes(c, cat(head(5, n, 2), body), origin, false)
+	doBytes(c, cat(head(5, n, 8), body), origin, false)
+	doBytes(c, cat([]byte{0xc6}, rMap(base)), origin, false)
+	doBytes(c, cat(rMap(base), []byte{0}), origin, false)
+	doBytes(c, cat(rMap(base), rMap(base)), origin, false)
+	doBytes(c, rList(rMap(base)), origin, false)
 }
 
 func runMalformed(c *vlib.Ctx) {
@@ -434,11 +451,15 @@ func runMalformed(c *vlib.Ctx) {
 	// 2. structural mutations of advertisements and chunks
 	for _, prev := range []bool{false, true} {
 		for _, ext := range []bool{false, true} {
-			mutateStruct(c, baseAdEntries(prev, ext), nil)
+			origin := "mutation-light"
+			if prev && ext {
+				origin = "mutation"
+			}
+			mutateStruct(c, baseAdEntries(prev, ext), origin)
 		}
 	}
-	mutateStruct(c, baseChunkEntries(false), nil)
-	mutateStruct(c, baseChunkEntries(true), nil)
+	mutateStruct(c, baseChunkEntries(false), "mutation-light")
+	mutateStruct(c, baseChunkEntries(true), "mutation")
 	// nested: mutations of the ExtendedProvider and Provider maps
 	base := baseAdEntries(false, false)
 	provFields := []kv{{"ID", rText("id")}, {"Addresses", rList(rText("a"))}, {"Metadata", rBytes([]byte{1})}, {"Signature", rBytes(nil)}}
@@ -464,9 +485,7 @@ func runMalformed(c *vlib.Ctx) {
 			doBytes(c, blk[:i], "truncation", false)
 		}
 		step := 1
-		if si == 1 && !c.Thorough() {
-			step = 5 // the advertisement is ~400 bytes: every 5th bit position in the quick tier
-		}
+		_ = si
 		for bit := 0; bit < 8*len(blk); bit += step {
 			x := append([]byte{}, blk...)
 			x[bit/8] ^= 1 << (bit % 8)
